@@ -27,10 +27,28 @@ def main():
             sys.exit(rc)
         mod.run(rep, a.tier, seed, keep=a.keep)
     except Exception:
+        _disarm()
         traceback.print_exc()
         print('machinery failure in %s' % a.pid)
         sys.exit(2)
-    sys.exit(rep.finish(findings.Findings()))
+    _disarm()
+    try:
+        rc = rep.finish(findings.Findings())
+    except Exception:
+        traceback.print_exc()
+        print('machinery failure in %s (writing the evidence)' % a.pid)
+        sys.exit(2)
+    sys.exit(rc)
+
+
+def _disarm():
+    """no watchdog timer of the harness may fire once the check's own work is over"""
+    import signal
+    try:
+        signal.setitimer(signal.ITIMER_REAL, 0)
+        signal.signal(signal.SIGALRM, signal.SIG_IGN)
+    except Exception:
+        pass
 
 
 if __name__ == '__main__':
